@@ -1,9 +1,14 @@
 import EinoV.Oracle.C05GraphCase
+import EinoV.Oracle.C05Eager
 
 namespace EinoV.Oracle.C06
 open Lean EinoV
 
-/-- same case language and model run as C05 (the C06 harness compares the interrupt observables) -/
-def handle (c : Json) : JE Json := C05GraphCase.handle c
+/-- same case language and model run as C05 (the C06 harness compares the interrupt observables);
+    kind "eager": the eager-workflow family shared with C05 (uninterrupted reference run) -/
+def handle (c : Json) : JE Json :=
+  match c.getObjVal? "kind" with
+  | .ok (.str "eager") => C05Eager.handle c
+  | _ => C05GraphCase.handle c
 
 end EinoV.Oracle.C06
